@@ -983,7 +983,9 @@ def b_zip(eng, *xs):
     its = [make_iter(eng, x) for x in xs]
     if all(i.concrete is not None for i in its):
         return IterV(None, None, concrete=list(zip(*[i.concrete for i in its])))
-    ns = [len(i.concrete) if i.concrete is not None else i.n for i in its]
+    ns = [len(i.concrete) if i.concrete is not None else i.n for i in its if not getattr(i, 'infinite', False)]
+    if not ns:
+        raise EngineError('zip of infinite iterators only')
     n = ns[0]
     for m in ns[1:]:
         n = z3.If(_int(m) < _int(n), _int(m), _int(n))
@@ -1293,6 +1295,13 @@ def b_dict(eng, x=None, **kw):
     if x is not None:
         if isinstance(x, (Box, SV)) and isinstance(type_of(x), TMap):
             return Box(type_of(x), to_z3(x))
+        it = make_iter(eng, x) if not isinstance(x, (list, tuple)) else None
+        if it is not None and it.concrete is None and not isinstance(it.n, int):
+            # dict(<pairs over a symbolic sequence>): like the comprehension {k: v for k, v in pairs}
+            class _G:
+                target = ast.Tuple(elts=[ast.Name(id='__k', ctx=ast.Store()), ast.Name(id='__v', ctx=ast.Store())], ctx=ast.Store())
+                ifs = []
+            return dict_from_pairs(eng, it, _G, Env(None, {}), lambda sub: (sub.vars['__k'], sub.vars['__v']))
         for kv in eng.concrete_list(x):
             k, v = eng.unpack(kv, 2)
             setitem(eng, b, k, v)
@@ -2236,6 +2245,12 @@ def install(eng):
     abc = ModuleV('collections.abc', dict(Sequence=PyType('Sequence'), Hashable=PyType('Hashable')))
     EXTERNAL_MODULES['collections.abc'] = abc
     EXTERNAL_MODULES['collections'].attrs['abc'] = abc
+    def it_count(e, start=0, step=1):
+        st, sp = _int(e.num(start)), _int(e.num(step))
+        it = IterV(None, lambda i: wrap(TInt, z3.simplify(st + sp * _int(i))))
+        it.infinite = True
+        return it
+    EXTERNAL_MODULES['itertools'] = ModuleV('itertools', dict(count=Builtin(it_count, 'itertools.count')))
     # collections.deque(): an empty double-ended queue, modelled as a list (append / popleft / iteration)
     EXTERNAL_MODULES['collections'].attrs['deque'] = Builtin(lambda e: Box(None, kind='list'), 'collections.deque')
     EXTERNAL_MODULES['numbers'] = ModuleV('numbers', dict(Integral=PyType('Integral'), Number=PyType('Number'),
